@@ -43,11 +43,17 @@ def m44Of (a : Array Float) (o : Nat) : M44 Float :=
   ⟨a[o]!, a[o+1]!, a[o+2]!, a[o+3]!, a[o+4]!, a[o+5]!, a[o+6]!, a[o+7]!, a[o+8]!, a[o+9]!, a[o+10]!, a[o+11]!,
    a[o+12]!, a[o+13]!, a[o+14]!, a[o+15]!⟩
 
-/-- materialise a function matrix (so that closures do not pile up between steps) -/
-def mat3 (f : Mat Float) : Mat Float := M33.toFn (M33.ofFn f)
-def mat4 (f : Mat Float) : Mat Float := M44.toFn (M44.ofFn f)
-def vec3 (f : Nat → Float) : Nat → Float := V3.toFn (V3.ofFn f)
-def vec4 (f : Nat → Float) : Nat → Float := V4.toFn (V4.ofFn f)
+/-- materialise a function matrix into an array (so that closures do not pile up between steps; `noinline`
+keeps the compiler from fusing the projections back into the closure) -/
+@[noinline] def matArr (n : Nat) (f : Mat Float) : Array Float :=
+  (Array.range (n * n)).map fun t => f (t / n) (t % n)
+@[noinline] def vecArr (n : Nat) (f : Nat → Float) : Array Float := (Array.range n).map f
+@[noinline] def matOfArr (n : Nat) (a : Array Float) : Mat Float := fun i j => if i < n ∧ j < n then a[n * i + j]! else 0
+@[noinline] def vecOfArr (a : Array Float) : Nat → Float := fun i => a[i]!
+def mat3 (f : Mat Float) : Mat Float := matOfArr 3 (matArr 3 f)
+def mat4 (f : Mat Float) : Mat Float := matOfArr 4 (matArr 4 f)
+def vec3 (f : Nat → Float) : Nat → Float := vecOfArr (vecArr 3 f)
+def vec4 (f : Nat → Float) : Nat → Float := vecOfArr (vecArr 4 f)
 def matN (n : Nat) (f : Mat Float) : Mat Float := if n == 3 then mat3 f else mat4 f
 def vecN (n : Nat) (f : Nat → Float) : Nat → Float := if n == 3 then vec3 f else vec4 f
 def matL (n : Nat) (f : Mat Float) : List Float := if n == 3 then m33L (M33.ofFn f) else m44L (M44.ofFn f)
